@@ -274,6 +274,9 @@ int main(int argc, char** argv)
   malloc_size<const Pair, Pair>(sb, "const Pair", 1);
   malloc_size<Pair[3], Pair>(sb, "Pair[3]", 3);
   malloc_size<const Pair[2], Pair>(sb, "const Pair[2]", 2);
+  malloc_size<Pair[2][3], Pair>(sb, "Pair[2][3]", 6);
+  malloc_size<short[2][4], short>(sb, "short[2][4]", 8);
+  malloc_size<long[2][2][2], long>(sb, "long[2][2][2]", 8);
   malloc_size<short, short>(sb, "short", 1);
   malloc_size<const short, short>(sb, "const short", 1);
   malloc_size<const short[5], short>(sb, "const short[5]", 5);
